@@ -145,7 +145,7 @@ struct Grid_Script : public Script {
       bool r = coin() ? (mx ? A.maximize(e, sn, sd, att, g) : A.minimize(e, sn, sd, att, g)) : (mx ? A.maximize(e, sn, sd, att) : A.minimize(e, sn, sd, att));
       out.push_back(val("bounded", r)); if (r) { out.push_back(val("opt", frac(toZ(sn), toZ(sd)))); out.push_back(val("attained", att)); }
       out.push_back(val("bounds_from_above", A.bounds_from_above(e))); out.push_back(val("bounds_from_below", A.bounds_from_below(e)));
-      Coefficient fn, fd, vn, vd; bool fr = A.frequency(e, fn, fd, vn, vd); out.push_back(val("frequency", fr)); if (fr) out.push_back(val("freq", frac(toZ(fn), toZ(fd)) + "@" + frac(toZ(vn), toZ(vd))));
+      Coefficient fn, fd, vn, vd; bool fr = A.frequency(e, fn, fd, vn, vd); out.push_back(val("frequency", fr)); if (fr) out.push_back(val("freq", frac(toZ(fn), toZ(fd)) + " at " + frac(toZ(vn), toZ(vd))));
       break; }
     case QUERY_PRED: {
       ctx.begin("predicates", ra + ".predicates()");
